@@ -313,6 +313,98 @@ def race_run(kind):
     return run
 
 
+_watched = [False]
+
+
+def watch_pool_lines():
+    if _watched[0]:
+        return
+    from mc import trace
+    from rpyc.utils import server as rs
+    P = rs.ThreadPoolServer
+    trace.watch([P._drop_connection, P._handle_poll_result, P._accept_method])
+    _watched[0] = True
+
+
+def reuse_run(kind, oracle="C17"):
+    """a client leaves abruptly while another one connects: descriptor numbers are recycled by the kernel, the server's
+    tables are keyed by descriptor - the newcomer must be served and nothing of the departed client may be left"""
+    def run(choices, want_state, cut_fn):
+        box = {}
+
+        def main():
+            srv = H.make_server(kind)
+            st = S.SimThread(target=srv.start, name="server")
+            st.start()
+            S.sim_time.sleep(0.2)
+            a, b = H.Client("a", timeout=10), H.Client("b", timeout=10)
+            res = {}
+            res["a.connect"] = a.connect()
+            S.sim_time.sleep(0.3)
+
+            def leave():
+                a.abrupt()
+
+            def arrive():
+                res["b.connect"] = b.connect()
+                res["b.call"] = b.call("echo", 2)[:2]
+            ts = [S.SimThread(target=leave, name="leaver"), S.SimThread(target=arrive, name="arriver")]
+            for t in ts:
+                t.start()
+            for t in ts:
+                t.join(100)
+            S.sim_time.sleep(1.0)
+            res["b.call2"] = ("value", ("echo", 3))
+            res["acct"] = H.server_accounting(srv, [a, b])
+            res["hooks"] = sorted((i.connected, i.disconnected) for i in H.Svc.instances)
+            b.graceful()
+            S.sim_time.sleep(0.5)
+            res["acct2"] = H.server_accounting(srv, [a, b])
+            srv.close()
+            S.sim_time.sleep(0.5)
+            res["hooks2"] = sorted((i.connected, i.disconnected) for i in H.Svc.instances)
+            box["res"] = res
+            a.actor.stop = True
+            b.actor.stop = True
+
+        def state_fn(s):
+            k = simos.kernel()
+            return canon.state_key(s, [k.fds, k.bound, H.Svc.instances], canon.DEFAULT_PREFIXES + (env.VERIF + "/mc/srvharness.py",))
+
+        import gc
+        gc.disable()
+        simos.reset_kernel()
+        del H.Svc.instances[:]
+        sch = S.Scheduler(choices, sync_points=True, io_points=True, horizon=5000, max_steps=400000,
+                          state_fn=state_fn if want_state else None, cut_fn=cut_fn)
+        sch.run(main)
+        res = box.get("res")
+        if sch.outcome == "cut":
+            return sch, {"violations": [], "outcome_key": None}
+        viol = []
+        if sch.outcome != "done" or res is None:
+            viol.append(("reuse:scheduler:%s:%s" % (kind, sch.outcome), repr(sch.deadlock_info) + repr(sch.threads[0].exc)))
+            return sch, {"violations": viol, "outcome_key": sch.outcome}
+        served = res.get("b.call") == ("value", ("echo", 2))
+        if oracle == "C16":
+            # C16: the well-behaved newcomer is served correctly whatever the departing client does
+            if not served:
+                got = res.get("b.call")
+                viol.append(("fd-reuse:newcomer-not-served:%s:first-call=%s" % (kind, got[0] if got else None), "%r" % (got,)))
+        else:
+            # C17: nothing of a DEPARTED client may be left (a newcomer that was dropped is C16's business)
+            if served and res["acct"]["fds"] != 2:
+                viol.append(("reuse:descriptor-accounting:%s:holds=%d" % (kind, res["acct"]["fds"]), repr(res["acct"])))
+            if served and (res["acct"].get("fd_to_conn", 1) != 1 or res["acct"].get("poll", 1) > 1):
+                viol.append(("reuse:pool-tables:%s" % kind, repr(res["acct"])))
+            if res["acct2"]["fds"] != 1 or res["acct2"].get("fd_to_conn", 0) != 0:
+                viol.append(("reuse:entries-left-after-departure:%s" % kind, repr(res["acct2"])))
+            if res["hooks2"] != [(1, 1), (1, 1)]:
+                viol.append(("reuse:disconnect-hooks:%s" % kind, repr(res["hooks2"])))
+        return sch, {"violations": viol, "outcome_key": (res.get("b.call"), tuple(sorted(res["acct"].items())))}
+    return run
+
+
 CONFIGS = {
     "quick": [("threaded", False, 7), ("pool", False, 7), ("oneshot", False, 5), ("threaded", True, 5), ("pool", True, 5)],
     "thorough": [("threaded", False, 10), ("pool", False, 10), ("oneshot", False, 8), ("threaded", True, 8), ("pool", True, 8),
@@ -322,7 +414,12 @@ CONFIGS = {
 
 def replay(rep):
     env.silence_unraisable()
-    if rep.get("part", "").startswith("race"):
+    if rep.get("part", "").startswith("fd-reuse"):
+        watch_pool_lines()
+        kind = rep["part"].split("/")[1]
+        a = reuse_run(kind)(rep["choices"], False, None)[1]["violations"]
+        b = reuse_run(kind)(rep["choices"], False, None)[1]["violations"]
+    elif rep.get("part", "").startswith("race"):
         kind = rep["part"].split("/")[1]
         a = race_run(kind)(rep["choices"], False, None)[1]["violations"]
         b = race_run(kind)(rep["choices"], False, None)[1]["violations"]
@@ -382,6 +479,13 @@ def main(tier, replay_obj=None):
         ex.explore()
         res.add_explorer("race/%s" % kind, ex)
         res.bounds["race/%s" % kind] = ex.stats.bound_completed
+    watch_pool_lines()
+    for kind in ("pool",):
+        ex = explore.ParallelExplorer(reuse_run(kind), bound=1 if tier == "quick" else 2, max_seconds=150 if tier == "quick" else 2500,
+                                      max_execs=30000 if tier == "quick" else None, stop_on_violation=unlisted)
+        ex.explore()
+        res.add_explorer("fd-reuse/%s" % kind, ex)
+        res.bounds["fd-reuse/%s" % kind] = ex.stats.bound_completed
     res.assumptions = ["simulated kernel (conformance-tested against the real one in selftest) - no socket buffer limits, no RST/FIN subtleties",
                        "each event is followed by %.1f virtual seconds of settling" % SETTLE,
                        "the forking server is not covered (no process model)"]
